@@ -26,7 +26,16 @@ func c16Alphabet() []string {
 	return ks
 }
 
-func c16CheckSet(c *Ctx, keys []string, versions []int) bool {
+func c16CheckSet(c *Ctx, keys []string, versions []int) (ok bool) {
+	if err := guard("c16", func() error { ok = c16CheckSetRaw(c, keys, versions); return nil }); err != nil {
+		oe := err.(*OracleErr)
+		c.Violation(oe.Sig, fmt.Sprintf("filter for %q (versions per key %v): %s", keys, versions, oe.Detail), nil, map[string]any{"keys": keys, "versions": versions})
+		return false
+	}
+	return ok
+}
+
+func c16CheckSetRaw(c *Ctx, keys []string, versions []int) bool {
 	var es []types.Entry
 	for i, k := range keys {
 		for v := 1; v <= versions[i]; v++ {
@@ -185,6 +194,54 @@ func c16Units(tier string) []Unit {
 			}
 		}})
 	}
+	// (2b) every key length: the hash path must not depend on the length of the key (scratch buffers, block-wise hashing)
+	units = append(units, Unit{Name: "keylengths", Weight: 3, Run: func(c *Ctx) {
+		if c.Replay != nil {
+			var rc struct {
+				Keys     []string `json:"keys"`
+				Versions []int    `json:"versions"`
+			}
+			jsonUnmarshal(c.Replay.Case, &rc)
+			if c16CheckSet(c, rc.Keys, rc.Versions) {
+				fmt.Println("every member is admitted")
+			}
+			return
+		}
+		maxL := 600
+		if tier == "thorough" {
+			maxL = 5000
+		}
+		var lens []int
+		for l := 1; l <= maxL; l++ {
+			lens = append(lens, l)
+		}
+		lens = append(lens, 8191, 8192, 8193, 32768, 65513, 65514)
+		for _, l := range lens {
+			for pat := 0; pat < 2; pat++ {
+				b := make([]byte, l)
+				for i := range b {
+					if pat == 0 {
+						b[i] = 'k'
+					} else {
+						b[i] = byte(33 + (i*7+l)%90)
+					}
+				}
+				k := string(b)
+				// alone; with a short partner; with a partner that shares all but the last byte
+				other := k[:l-1] + "~"
+				for _, set := range [][]string{{k}, {"a", k}, {k, other}} {
+					vers := make([]int, len(set))
+					for i := range vers {
+						vers[i] = 1 + (l+i)%2
+					}
+					if c16CheckSet(c, set, vers) && len(set) >= 2 {
+						c.NT(fmt.Sprintf("len=%d pat=%d n=%d", l, pat, len(set)))
+					}
+				}
+			}
+		}
+		c.Sample(map[string]any{"key_lengths": fmt.Sprintf("1..%d, 8191..8193, 32768, 65513, 65514", maxL), "patterns": 2, "sets": "alone / with a short key / with a key differing in the last byte"})
+	}})
 	// (3) filters rebuilt from table files by recover()
 	units = append(units, Unit{Name: "recovered-filters", Weight: 1, Run: func(c *Ctx) {
 		n := len(alpha)
@@ -224,7 +281,7 @@ func init() {
 		Units: c16Units,
 		Rule: "(between the member queries the same filter is asked about non-members, as lookups of other keys do) bounded-exhaustive inputs: every set of 1-3 user keys over all byte strings of length <= 2 from {0x00,'!','@','a',0xff}, each key in 1-3 versions, built with the real filter.Build and " +
 			"queried as the table lookup does; every entry count n = 1..4096 (thorough: ..8192 plus powers of two and neighbours up to 65537) with a deterministic key family, every member queried; " +
-			"filters rebuilt from table files by recover(); a case is non-trivial when the set has >= 2 distinct keys",
+			"every user-key length 1..600 (thorough: ..5000) and 8191..8193, 32768, 65513, 65514 (the largest the engine accepts) in two byte patterns, alone and with partners; filters rebuilt from table files by recover(); a case is non-trivial when the set has >= 2 distinct keys",
 		Assumptions: []string{
 			"exhaustive-input checking of a deterministic function: the bound is the alphabet and the n range",
 			"murmur3 is trusted",
